@@ -45,6 +45,7 @@ type Step struct {
 	Sig        string       `json:"sig,omitempty"` // ok | flip | otherchain | none
 	Fee        int64        `json:"fee,omitempty"`
 	Entropy    int64        `json:"entropy,omitempty"`
+	ToMod      string       `json:"to_mod,omitempty"` // recipient is this module account (gov_dao)
 	Memo       string       `json:"memo,omitempty"`
 	Via        string       `json:"via,omitempty"` // "" straight into the next block | "checktx" first
 	// ---- resubmit
@@ -124,7 +125,11 @@ func (s *Sim) buildMsg(st *Step) (sdk.ProtoMsg, error) {
 	case "gov_param":
 		return &govTypes.MsgChangeParam{FromAddress: s.key(st.From), ParamKey: st.ParamKey, ParamVal: []byte(st.ParamVal)}, nil
 	case "gov_dao":
-		return &govTypes.MsgDAOTransfer{FromAddress: s.key(st.From), ToAddress: s.key(st.To), Amount: sdk.NewInt(st.Amount), Action: st.Action}, nil
+		to := s.key(st.To)
+		if st.ToMod != "" {
+			to, _ = sdk.AddressFromHex(ModuleAddr(st.ToMod))
+		}
+		return &govTypes.MsgDAOTransfer{FromAddress: s.key(st.From), ToAddress: to, Amount: sdk.NewInt(st.Amount), Action: st.Action}, nil
 	case "gov_upgrade":
 		u := govTypes.Upgrade{Height: st.Upgrade.Height, Version: st.Upgrade.Version, Features: st.Upgrade.Features}
 		return &govTypes.MsgUpgrade{Address: s.key(st.From), Upgrade: u}, nil
